@@ -585,7 +585,7 @@ def rule_s1(ctx: Ctx) -> None:
     for meth, target in (("is_finite", "is_finite"), ("is_polynomial", "is_polynomial"), ("is_insertion_encodable", "is_insertion_encodable")):
         f = repo.need_method("Av", meth)
         ctx.run(check_skeleton, ctx, "C13-S1", f, [f"if isinstance(self.basis, MeshBasis):\n    raise NotImplementedError(Av._BASIS_ONLY_MSG)\nreturn {target}(self.basis)"],
-                       f"Av.{meth} = {target}(self.basis), mesh bases rejected")
+                       f"Av.{meth} = {target}(self.basis), mesh bases rejected", required_calls=[target])
     # the module-level names used by Av resolve to the deciding functions
     av_mod = repo.cls("Av").module
     for name, want in (("is_finite", "permuta.permutils.finite:is_finite"), ("is_polynomial", "permuta.permutils.polynomial:PolyPerms.is_polynomial"),
@@ -708,7 +708,7 @@ def variants():
         V("finite-or", replace_expr(FI, "is_finite", "any((perm.is_decreasing() for perm in it1)) and any((perm.is_increasing() for perm in it2))",
                                     "any((perm.is_decreasing() for perm in it1)) or any((perm.is_increasing() for perm in it2))"), "fire", "C13-S1"),
         V("finite-all", replace_expr(FI, "is_finite", "any((perm.is_decreasing() for perm in it1))", "all((perm.is_decreasing() for perm in it1))"), "fire", "C13-S1"),
-        V("av-ispoly-calls-finite", replace_expr(PS, "Av.is_polynomial", "is_polynomial(self.basis)", "is_finite(self.basis)"), "fire-or-undecided", "C13-S1"),
+        V("av-ispoly-calls-finite", replace_expr(PS, "Av.is_polynomial", "is_polynomial(self.basis)", "is_finite(self.basis)"), "fire", "C13-S1"),
         V("av-isfinite-negated", replace_expr(PS, "Av.is_finite", "is_finite(self.basis)", "not is_finite(self.basis)"), "fire", "C13-S1"),
         V("nonpoly-not-dropped", replace_expr(PO, "PolyPerms.is_non_polynomial", "not PolyPerms.is_polynomial(basis)", "PolyPerms.is_polynomial(basis)"), "fire", "C13-S1"),
         V("cli-poly-polarity", replace_expr(CL, "has_poly_growth", "'' if poly else 'not '", "'not ' if poly else ''"), "fire", "C13-S1"),
